@@ -234,6 +234,10 @@ impl FormMultipartData {
 
 
         let (_, boundary) = boxed_split.unwrap();
+        // the parameter value may be written as a quoted string: boundary="a b"
+        let boundary = boundary.strip_prefix(SYMBOL.quotation_mark)
+            .and_then(|unquoted| unquoted.strip_suffix(SYMBOL.quotation_mark))
+            .unwrap_or(boundary);
         Ok(boundary.to_string())
     }
 
